@@ -24,4 +24,13 @@ var plans = map[string]plan{
 			"Go regexp is the trusted matcher for the pattern subset on which RE2 and ECMA-262 agree",
 		},
 	},
+	"C12": {
+		Quick:    []stage{rapidStage(12_000)},
+		Thorough: []stage{rapidStage(600_000), fuzzStage("FuzzC12", 180)},
+		Rule: "cases are (component schemas incl. formats, patterns, discriminators with $ref branches; value; numeric representation), judged under 8 option sets plus IsMatching and the typed IsMatchingJSON* helpers. non-trivial = the value is rejected AND (some schema error's pointer has >= 2 tokens, or a multi-error has >= 2 members, or a format / discriminator error is reported). distinct = FNV-64a of the canonical case JSON.",
+		Assume: []string{
+			"relational oracle: the verdict of the default mode is the reference for the other modes; the pointer is resolved with an independent RFC 6901 walker over the validated value",
+			"errors nested as causes (Origin / oneOf branch errors) are not asserted, as the property states",
+		},
+	},
 }
